@@ -810,25 +810,14 @@ class BaseTask(object, metaclass=abc.ABCMeta):
                     from_time = time
                 elif to_time == -1:
                     to_time = time
-                    if state == BaseTaskState.NONE or state == BaseTaskState.FINISHED:
-                        if previous_state == BaseTaskState.WORKING:
-                            working_time_list.append(
-                                (from_time, (to_time - 1) - from_time + finish_margin)
-                            )
-                        elif previous_state == BaseTaskState.READY:
-                            ready_time_list.append(
-                                (from_time, (to_time - 1) - from_time + finish_margin)
-                            )
-                    if state == BaseTaskState.READY:
-                        if previous_state == BaseTaskState.WORKING:
-                            working_time_list.append(
-                                (from_time, (to_time - 1) - from_time + finish_margin)
-                            )
-                    if state == BaseTaskState.WORKING:
-                        if previous_state == BaseTaskState.READY:
-                            ready_time_list.append(
-                                (from_time, (to_time - 1) - from_time + finish_margin)
-                            )
+                    if previous_state == BaseTaskState.WORKING:
+                        working_time_list.append(
+                            (from_time, (to_time - 1) - from_time + finish_margin)
+                        )
+                    elif previous_state == BaseTaskState.READY:
+                        ready_time_list.append(
+                            (from_time, (to_time - 1) - from_time + finish_margin)
+                        )
                     from_time = time
                     to_time = -1
             previous_state = state
